@@ -5,6 +5,21 @@ VERIF = os.path.dirname(os.path.dirname(os.path.abspath(__file__)))
 
 # id -> (category, technique, level text, level note, design ref)
 CHECKS = {
+ "C01": ("exploration",
+         "runtime monitoring: k-cycle round-trip monitor (model equality by PartialEq and byte equality of texts in every cycle) over grammar-generated documents in all layouts, API-built and API-edited models, with panic/step-budget monitors",
+         "Each accepted document (grammar-walk generator covering all 165 element kinds; canonical, C05-class and wide layouts incl. CRLF/mixed line ends, tabs, comments of both kinds in every gap, IF_DATA, A2ML; entry points load_from_string, load, load_fragment) and each model built or edited through the public API is taken through K=3 (quick) / 6 (thorough) load->write cycles; in every cycle load must succeed, the model must equal the previous one and the text must be byte-identical. 4 000 / 150 000 cases. Floors: every element kind of the frozen grammar must have occurred.",
+         "trusts: the crate's PartialEq as model equality; the frozen reference grammar (copy of the specification DSL) as the definition of valid documents; finite floats",
+         "DESIGN.md section 3 C01"),
+ "C02": ("exploration",
+         "runtime monitoring: token-conservation monitor (generator token list vs independent lexer over the written text) + numeric boundary sweep monitor",
+         "For every generated document the written text is tokenised by an independent lexer and compared token by token (kind, normalised value, order; documented position-restriction reordering applied to the expectation; block-level comments verbatim) with the generator's own token list, incl. uninterpreted IF_DATA payloads with integers wider than 32 bit. The boundary sweep runs every integer parameter of every element through literals at and beyond the field limits (decimal and hex) and float parameters through literals beyond the f64 range: each must either be diagnosed/rejected or be written back with exactly the input value. 1 800 boundary cases x 2 modes + 4 000 / 100 000 documents.",
+         "trusts: the generator's token list as ground truth, the independent lexer (vcommon::lexer) for output text; comments outside block-level slots / inside IF_DATA are not required to survive",
+         "DESIGN.md section 3 C02"),
+ "C05": ("exploration",
+         "runtime monitoring: line-map monitor (input line of every token vs line in the written text), byte-equality monitor for writer-format input, edit-locality monitor (token/line comparison of the output before and after one API edit)",
+         "(i) documents of the property's layout class (random line breaks, blank lines, indentation, block-level comments incl. multi-line ones): every significant token must be written on its input line; (ii) documents rendered in the writer's own format must be reproduced byte for byte; (iii) after one field edit / push / remove through the API every token outside the edited object must keep its text and its line (uniform shift behind the object) and every line without a token of the object must be byte-identical. 3 000 / 80 000 documents x up to 9 / 15 edits.",
+         "trusts: the renderer's line bookkeeping; removal/push are judged when the object does not share its first/last line with other tokens (otherwise a shared line necessarily changes)",
+         "DESIGN.md section 3 C05"),
  "C03": ("exploration",
          "runtime monitoring: crash monitor (panic capture per call, worker-abort attribution through a case journal), logical step-budget monitor (verif_hooks tick counter), allocation-peak monitor, over generated hostile inputs",
          "Every load call (load_from_string / load_fragment / load from a temp file; strict on/off; a2ml_spec none/valid/invalid) on hostile inputs (random bytes and text, every kind of truncation, token deletion/duplication/swap of grammar-generated documents, token soups, byte mutations, hostile A2ML, nesting probes up to depth 65536) runs under a panic monitor, a logical step budget proportional to the input size (non-termination becomes a deterministic event) and an allocation-peak monitor; process aborts (stack overflow) are attributed to the journalled case and confirmed in isolation. 60 000 (quick) / 3 000 000 (thorough) inputs.",
